@@ -329,6 +329,13 @@ def new_manifest_entry(tag, *args):
     return MANIFEST_TAG_MAPPING[tag](*args)
 
 
+# GnuPG processes the signed text in lines of at most ~20000 bytes and
+# drops the rest of a longer line while still reporting a good signature,
+# i.e. what follows is not covered by the signature.  No valid entry comes
+# anywhere near that length.
+MAX_SIGNED_LINE_LENGTH = 16384
+
+
 class ManifestState:
     """
     FSM constants for loading Manifest.
@@ -402,6 +409,10 @@ class ManifestFile:
                 state = ManifestState.SIGNED_DATA
             elif state == ManifestState.SIGNED_DATA:
                 if verify_openpgp:
+                    if (len(line.encode('utf8', 'replace'))
+                            > MAX_SIGNED_LINE_LENGTH):
+                        raise ManifestSyntaxError(
+                            'Line too long for an OpenPGP-signed Manifest')
                     openpgp_data += line
                 if line == '-----BEGIN PGP SIGNATURE-----\n':
                     state = ManifestState.SIGNATURE
